@@ -1,6 +1,6 @@
 // streaming_kzg/space.rs: the space-efficient committer and single-point prover, and their EQUALITY with the time-efficient ones  (C14, C08, C01)
-//@use core ops_gen std
-//@spec ring
+//@use core ops_gen poly std
+//@spec ring longdiv_spec
 //@typemap /<E, SG>/ =>
 //@typemap /<E>/ =>
 //@typemap /: SG,/ => : Vec<G1Affine>,
@@ -27,6 +27,27 @@ impl ChunkedPippenger {
 #[verifier::external_body] pub fn slice_to_vec_g1(s: &[G1Affine]) -> (r: Vec<G1Affine>) ensures r@ == s@ { unimplemented!() }                    // iter().map(|x| *x.borrow()).collect()
 #[verifier::external_body] pub fn vec_reverse_g1(v: &mut Vec<G1Affine>) ensures final(v)@.len() == old(v)@.len(), forall|i: int| 0 <= i < old(v)@.len() ==> final(v)@[i] == old(v)@[old(v)@.len() - 1 - i] { unimplemented!() }   // <[T]>::reverse
 #[verifier::external_body] pub fn vec_g2_clone(v: &Vec<G2Affine>) -> (r: Vec<G2Affine>) ensures r@ == v@ { unimplemented!() }
+// std VecDeque used as a sliding window: a sequence (front = index 0)
+pub struct VDq { pub v: Ghost<Seq<Fr>> }
+impl VDq {
+    #[verifier::external_body] pub fn with_capacity(n: usize) -> (r: Self) ensures r.v@.len() == 0 { unimplemented!() }
+    #[verifier::external_body] pub fn push_back(&mut self, x: Fr) ensures final(self).v@ == old(self).v@.push(x) { unimplemented!() }
+    #[verifier::external_body] pub fn pop_front_unwrap(&mut self) -> (r: Fr) ensures old(self).v@.len() > 0, r == old(self).v@[0], final(self).v@ == old(self).v@.subrange(1, old(self).v@.len() as int) { unimplemented!() }   // pop_front().unwrap(): empty aborts
+    #[verifier::external_body] pub fn sub_at(&mut self, i: usize, d: Fr) ensures i < old(self).v@.len(), final(self).v@.len() == old(self).v@.len(), final(self).v@[i as int]@ == f_sub(old(self).v@[i as int]@, d@),
+        forall|j: int| 0 <= j < old(self).v@.len() && j != i ==> final(self).v@[j] == old(self).v@[j] { unimplemented!() }       // state[i] -= d  (out of range aborts)
+    #[verifier::external_body] pub fn to_vec(&self) -> (r: Vec<Fr>) ensures r@ == self.v@ { unimplemented!() }                       // make_contiguous().to_vec()
+}
+// vanishing_polynomial (streaming_kzg/mod.rs): prod_j (X - point_j), monic of degree n   [assumed as in units/streaming_multi.rs]
+pub open spec fn vprod(pts: Seq<Fr>, k: nat, x: FS) -> FS decreases k { if k == 0 { f_one() } else { f_mul(vprod(pts, (k - 1) as nat, x), f_sub(x, pts[k - 1]@)) } }
+#[verifier::external_body] pub fn vanishing_polynomial(points: &[Fr]) -> (r: Poly)
+    ensures forall|x: FS| #[trigger] r.ev(x) == vprod(points@, points@.len(), x), r.wf(), r.coeffs@.len() == points@.len() + 1, r.coeffs@[points@.len() as int]@ == f_one() { unimplemented!() }
+// what the space-efficient multi-point prover returns: the remainder (big-endian, one coefficient per point) and the commitment to a quotient q with f = q Z + r
+pub open spec fn smp_rel(ck: &CommitterKeyStream, f: Seq<Fr>, pts: Seq<Fr>, rem: Seq<Fr>, proof_v: FS, q: Seq<FS>) -> bool {
+    let n = f.len(); let m = pts.len();
+    rem.len() == m && q.len() == n - m
+    && (forall|x: FS| be(fviews(f), x, n) == f_add(f_mul(#[trigger] be(q, x, (n - m) as nat), vprod(pts, m, x)), be(fviews(rem), x, m)))
+    && proof_v == dot(g1views(ck.powers_of_g@.subrange(ck.powers_of_g@.len() - n + m, ck.powers_of_g@.len() as int)), q, (n - m) as nat)
+}
 // ======================= specification =======================
 pub open spec fn rev(s: Seq<FS>) -> Seq<FS> { Seq::new(s.len(), |i: int| s[s.len() - 1 - i]) }
 // Horner synthetic division on the little-endian coefficient vector p (same definition as units/streaming.rs): h_k = p[n-k] + h_{k-1} a
@@ -48,6 +69,50 @@ impl CommitterKeyStream {
 //@rw 1 /(?s)self\s*\.powers_of_g\s*\.iter\(\)\s*\.skip\(offset\)\s*\.map\(\|x\| \*x\.borrow\(\)\)\s*\.collect::<Vec<_>>\(\)/ => slice_to_vec_g1(tail_g1(&self.powers_of_g, offset))
 //@rw 1 /powers_of_g\.reverse\(\);/ => vec_reverse_g1(&mut powers_of_g);
 //@rw 1 /self\.powers_of_g2\.clone\(\)\.to_vec\(\)/ => vec_g2_clone(&self.powers_of_g2)
+//@end
+//@fn id=streaming.space.open_multi_points file=poly-commit/src/streaming_kzg/space.rs scope="impl<E, SG> CommitterKeyStream<E, SG>" name=open_multi_points props=C14,C01
+    pub fn open_multi_points(&self, polynomial: &Vec<Fr>, points: &[Fr], max_msm_buffer: usize) -> (r: (Vec<Fr>, EvaluationProof))
+    requires
+        points@.len() >= 1, points@.len() <= polynomial@.len(), polynomial@.len() <= self.powers_of_g@.len(),      // (fewer coefficients than points, or a polynomial longer than the key: abort)
+        polynomial@.len() < usize::MAX,
+    ensures
+        exists|q: Seq<FS>| #[trigger] smp_rel(self, polynomial@, points@, r.0@, r.1.0@, q),   // name=streaming.space.open_multi_points.remainder_and_quotient_commitment_of_the_division_by_the_vanishing_polynomial props=C14,C01
+//@body
+//@rw 1 /let bases_init = self\.powers_of_g\.iter\(\);/ => let bases_unused__ = 0usize;
+//@rw 1 /let mut bases = bases_init\.skip\(self\.powers_of_g\.len\(\) - polynomial\.len\(\) \+ zeros\.degree\(\)\);/ => let bases_t__ = tail_g1(&self.powers_of_g, self.powers_of_g.len() - polynomial.len() + zeros.degree()); let mut bi__: usize = 0;
+//@rw 1 /VecDeque::<E::ScalarField>::with_capacity\(points\.len\(\)\)/ => VDq::with_capacity(points.len())
+//@rw 1 /let mut polynomial_iterator = polynomial\.iter\(\);/ => let mut pi__: usize = 0;
+//@rw 1 /(?s)\(0\.\.points\.len\(\)\)\.for_each\(\|_\| \{\s*state\.push_back\(\*polynomial_iterator\.next\(\)\.unwrap\(\)\.borrow\(\)\);\s*\}\);/ => for _k in ita: 0..points.len() invariant pi__ == ita.index@, state.v@ =~= polynomial@.subrange(0, pi__ as int), m == points@.len(), m <= polynomial@.len(), { state.push_back(polynomial[pi__]); pi__ += 1; }
+//@rw 1 /for coefficient in polynomial_iterator \{/ => while pi__ < polynomial.len() invariant m == points@.len(), m >= 1, n == polynomial@.len(), m <= pi__ <= n, n <= self.powers_of_g@.len(), n < usize::MAX, state.v@.len() == m, qs.len() == pi__ - m, bi__ == pi__ - m, bases_t__@ == self.powers_of_g@.subrange(self.powers_of_g@.len() - n + m, self.powers_of_g@.len() as int), zeros.coeffs@.len() == m + 1, zeros.coeffs@[m as int]@ == f_one(), zc == fviews(zeros.coeffs@), zr.len() == m, (forall|i: int| 0 <= i < m ==> zr[i] == zc[m - 1 - i]), quotient.acc@ == dot(g1views(bases_t__@), qs, qs.len()), smp_inv(fviews(polynomial@), qs, fviews(state.v@), zr, m, pi__ as nat), decreases polynomial@.len() - pi__ { let coefficient = &polynomial[pi__]; pi__ += 1; let ghost st0 = state.v@; let ghost q0 = qs;
+//@rw 1 /let coefficient = coefficient\.borrow\(\);/ => 
+//@rw 1 /state\.pop_front\(\)\.unwrap\(\)/ => state.pop_front_unwrap()
+//@rw 1 /(?s)\(0\.\.points\.len\(\)\)\.for_each\(\|i\| \{\s*state\[i\] -= (.*?);\s*\}\);/ => let ghost sh0 = state.v@; for i in itb: 0..points.len() invariant m == points@.len(), m >= 1, state.v@.len() == m, sh0.len() == m, zeros.coeffs@.len() == m + 1, zeros.coeffs@[m as int]@ == f_one(), zc == fviews(zeros.coeffs@), zr.len() == m, (forall|j: int| 0 <= j < m ==> zr[j] == zc[m - 1 - j]), (forall|j: int| 0 <= j < itb.index@ ==> (#[trigger] state.v@[j])@ == f_sub(sh0[j]@, f_mul(zr[j], quotient_coefficient@))), (forall|j: int| itb.index@ <= j < m ==> state.v@[j] == sh0[j]), { proof { ax_one_ne_zero(); assert(!zeros.is_zero_spec()) by { assert(zeros.coeffs@[m as int]@ == f_one()); } } let d__ = \1; state.sub_at(i, d__); }
+//@rw 1 /let base = bases\.next\(\)\.unwrap\(\);/ => let base = &bases_t__[bi__]; bi__ += 1;
+//@rw 1 /state\.make_contiguous\(\)\.to_vec\(\)/ => state.to_vec()
+//@after /let zeros = vanishing_polynomial\(points\);/
+        let ghost m = points@.len() as nat; let ghost n = polynomial@.len() as nat; let ghost zc = fviews(zeros.coeffs@); let ghost zr = Seq::new(m, |i: int| zc[m - 1 - i]);
+        let ghost mut qs: Seq<FS> = Seq::empty();
+        proof { ax_one_ne_zero(); assert(!zeros.is_zero_spec()) by { assert(zeros.coeffs@[m as int]@ == f_one()); } }
+//@before /for coefficient in polynomial_iterator \{/
+        proof { lemma_smp_init(fviews(polynomial@), fviews(state.v@), zr, m); assert(dot(g1views(bases_t__@), qs, 0) == f_zero()); }
+//@after /quotient\.add\(base, quotient_coefficient\.into_bigint\(\)\);/
+            proof {
+                let fv = fviews(polynomial@); let k = q0.len();
+                assert forall|i: int| 0 <= i < m implies fviews(state.v@)[i] == f_sub(fviews(st0).subrange(1, m as int).push(fv[pi__ - 1])[i], f_mul(zr[i], fviews(st0)[0])) by {
+                    assert(sh0[i]@ == fviews(st0).subrange(1, m as int).push(fv[pi__ - 1])[i]);
+                }
+                lemma_smp_step(fv, q0, fviews(st0), fviews(state.v@), zr, m, (pi__ - 1) as nat);
+                qs = q0.push(quotient_coefficient@);
+                lemma_dot_ext(g1views(bases_t__@), g1views(bases_t__@), qs, q0, k);
+            }
+//@before /let remainder = state\.make_contiguous/
+        proof {
+            assert forall|x: FS| be(fviews(polynomial@), x, n) == f_add(f_mul(#[trigger] be(qs, x, (n - m) as nat), vprod(points@, m, x)), be(fviews(state.v@), x, m)) by {
+                lemma_smp_final(fviews(polynomial@), qs, fviews(state.v@), zr, zc, m, x);
+                assert(zeros.ev(x) == peval(zc, x, m + 1));
+            }
+        }
+//@rw 1 /\(remainder, commitment\)/ => { let res__ = (remainder, commitment); proof { assert(smp_rel(self, polynomial@, points@, res__.0@, res__.1.0@, qs)); } res__ }
 //@end
 //@fn id=streaming.space.commit file=poly-commit/src/streaming_kzg/space.rs scope="impl<E, SG> CommitterKeyStream<E, SG>" name=commit props=C14,C08
     pub fn commit(&self, polynomial: &Vec<Fr>) -> (r: Commitment)
